@@ -158,8 +158,9 @@ func (m *ModuleInstance) ensureResourcesClosed(ctx context.Context) (err error) 
 		m.Sys = nil
 	}
 
-	if mem := m.MemoryInstance; mem != nil {
+	if mem := m.MemoryInstance; mem != nil && m.memoryReleased.CompareAndSwap(false, true) {
 		// The memory may be shared with other instances through imports: only the last one to close frees it.
+		// (This function can run more than once for a module that was closed by its context: see FailIfClosed.)
 		if mem.users.Add(-1) <= 0 && mem.expBuffer != nil {
 			mem.expBuffer.Free()
 			mem.expBuffer = nil
